@@ -148,6 +148,7 @@ struct job {
     uint64_t seed; const struct op *S; int ns; uint64_t *out;
     uint64_t hseed; const struct op *H; int nh; int terminate_between;
     pthread_barrier_t *bar;
+    int reseeds;          /* extra seedings (no draws) between the history and the seeding that counts */
 };
 static void *job_body(void *vp)
 {
@@ -160,6 +161,7 @@ static void *job_body(void *vp)
         for (int k = 0; k < j->nh; k++) (void)run_op(&j->H[k]);
         if (j->terminate_between) cmb_random_terminate();
     }
+    for (int k = 0; k < j->reseeds; k++) cmb_random_initialize(j->hseed + 7u * (uint64_t)k + 1u);
     cmb_random_initialize(j->seed);
     for (int k = 0; k < j->ns; k++) j->out[k] = run_op(&j->S[k]);
     for (int k = 0; k < NVEC; k++) if (tl_alias[k]) { cmb_random_alias_destroy(tl_alias[k]); tl_alias[k] = NULL; }
@@ -168,6 +170,7 @@ static void *job_body(void *vp)
 /* the same program as trials of an experiment: worker threads (and the caller afterwards) are threads like any other */
 static struct job *exp_jobs;
 static void exp_trial(void *vp) { int k = *(int *)vp; struct job j = exp_jobs[k]; j.bar = NULL; job_body(&j); }
+static void exp_trial_term(void *vp) { int k = *(int *)vp; struct job j = exp_jobs[k]; j.bar = NULL; job_body(&j); cmb_random_terminate(); }      /* a trial that tidies up after itself */
 /* ... and so is a simulated process: the program run from inside a coroutine of a fresh thread */
 static void *proc_job(struct cmb_process *me, void *ctx) { (void)me; struct job *j = ctx; for (int k = 0; k < j->ns; k++) j->out[k] = run_op(&j->S[k]); return NULL; }
 static void *process_job_body(void *vp)
@@ -249,6 +252,7 @@ void vr_case(uint64_t seed, uint64_t idx, int profile)
     uint64_t *oa = calloc((size_t)ns, 8), *ob = calloc((size_t)ns, 8);
     struct job ja = { sd, S, ns, oa, 0, NULL, 0, 0, NULL };
     struct job jb = { sd, S, ns, ob, hsd, H, nh, (int)vr_below(&r, 2), NULL };
+    { static const int rs[] = { 0, 0, 1, 2, 254, 255, 256, 257, 511, 512, 1000, 65535, 65536 }; jb.reseeds = rs[vr_below(&r, 13)]; if (jb.reseeds >= 255) VR_CNT("histories_followed_by_255_or_more_seedings"); }
     run_in_thread(&ja);
     run_in_thread(&jb);
     VR_CNT("pairs_fresh_vs_polluted");
@@ -288,6 +292,26 @@ void vr_case(uint64_t seed, uint64_t idx, int profile)
             for (int k = 0; k < ns; k++) if (oa[k] != ob[k]) { vr_violation("C15/thread-dependence", "seed %#" PRIx64 ": call %d (%s, parameter %g) returned %#" PRIx64 " in a plain thread but %#" PRIx64 " in the thread that has run an experiment", sd, k, fname[S[k].f], S[k].p[0], oa[k], ob[k]); break; } }
         for (int t = 0; t < ntr; t++) free(eo[t]);
         free(eo); free(exp_jobs); free(ids); exp_jobs = NULL;
+    }
+    /* a stream in use across an experiment: this thread seeds, draws the first half of the program, runs an experiment whose trials seed
+     * and terminate generators of their own, and draws the second half: the experiment is other threads' business */
+    if (vr_nviol == 0 && (profile == 1 || idx % 4 == 1)) {
+        for (int k = 0; k < NVEC; k++) tl_alias[k] = NULL;
+        cmb_random_initialize(sd);
+        int half = ns / 2; memset(ob, 0, (size_t)ns * 8);
+        for (int k = 0; k < half; k++) ob[k] = run_op(&S[k]);
+        int ntr = 1 + (int)vr_below(&r, 40); int *ids = calloc((size_t)ntr, sizeof *ids); exp_jobs = calloc((size_t)ntr, sizeof *exp_jobs); uint64_t *scratch = calloc((size_t)ns, 8);
+        for (int t = 0; t < ntr; t++) { ids[t] = t; exp_jobs[t] = (struct job){ vr_next(&r), S, ns < 20 ? ns : 20, scratch, 0, NULL, 0, 0, NULL, 0 }; exp_jobs[t].terminate_between = 0; }
+        /* (the trials write the same scratch values: same program prefix, results unused) */
+        for (int t = 0; t < ntr; t++) exp_jobs[t].out = calloc(20, 8);
+        cimba_run_experiment(ids, (uint64_t)ntr, sizeof *ids, exp_trial_term);
+        if (cmb_random_curseed() != sd) vr_violation("C15/thread-dependence", "this thread seeded with %#" PRIx64 "; after running an experiment of %d trials cmb_random_curseed() says %#" PRIx64, sd, ntr, cmb_random_curseed());
+        for (int k = half; k < ns && vr_nviol == 0; k++) ob[k] = run_op(&S[k]);
+        for (int k = 0; k < ns && vr_nviol == 0; k++) if (oa[k] != ob[k]) { vr_violation("C15/thread-dependence", "seed %#" PRIx64 ": call %d (%s) returned %#" PRIx64 " in a thread of its own but %#" PRIx64 " in a thread that ran an experiment of %d trials between call %d and call %d", sd, k, fname[S[k].f], oa[k], ob[k], ntr, half - 1, half); break; }
+        VR_CNT("streams_kept_across_an_experiment");
+        for (int t = 0; t < ntr; t++) free(exp_jobs[t].out);
+        free(scratch); free(exp_jobs); free(ids); exp_jobs = NULL;
+        for (int k = 0; k < NVEC; k++) if (tl_alias[k]) { cmb_random_alias_destroy(tl_alias[k]); tl_alias[k] = NULL; }
     }
     /* concurrent: nt threads, thread 0 runs (sd,S), others run their own programs */
     if (vr_nviol == 0) {
